@@ -179,6 +179,14 @@ pub fn run(ctx: &mut Ctx) {
             fam.push(("twin-kv-bare".into(), as_kv));
             fam.push(("twin-leaf-bare".into(), as_leaf));
         }
+        // one allocation at several positions: the same Envelope value (clones share it) used as two objects and
+        // once more inside a wrapped level - its re-decoded copy (separate allocations) is identical to it
+        {
+            ctx.count("aliased_members");
+            let shared = if e.is_node() || e.is_wrapped() { e.clone() } else { e.add_assertion("k", 1) };
+            let inner = Envelope::new("holder").add_assertion("deep", shared.clone()).wrap_envelope();
+            fam.push(("aliased".into(), Envelope::new("aliased").add_assertion("one", shared.clone()).add_assertion("two", shared.clone()).add_assertion("three", inner)));
+        }
         // identity survives encoding and decoding, for EVERY member of the family
         let k = rng.below(fam.len());
         for i in 0..fam.len() {
@@ -212,8 +220,8 @@ pub fn run(ctx: &mut Ctx) {
                 let (a, b) = (&fam[i].1, &fam[j].1);
                 let want_eq = trees[i].digest == trees[j].digest;
                 let want_id = ref_identical(&trees[i], &trees[j]);
-                let r = trap::guard(|| (a.is_equivalent_to(b), a.is_identical_to(b), a == b));
-                let (got_eq, got_id, got_pe) = match r {
+                let r = trap::guard(|| (a.is_equivalent_to(b), a.is_identical_to(b), a == b, a != b));
+                let (got_eq, got_id, got_pe, got_ne) = match r {
                     Ok(x) => x,
                     Err(p) => {
                         ctx.violation(&format!("compare-panic/{}", p.signature()), &format!("{:?}", p), J::obj(vec![("a", jhex(a)), ("b", jhex(b))]));
@@ -221,6 +229,9 @@ pub fn run(ctx: &mut Ctx) {
                     }
                 };
                 let replay = || J::obj(vec![("a", jhex(a)), ("b", jhex(b)), ("a_label", J::s(&fam[i].0)), ("b_label", J::s(&fam[j].0))]);
+                if got_ne == got_pe {
+                    ctx.violation("ne-not-complement-of-eq", &format!("a == b is {} and a != b is {} ({} vs {})", got_pe, got_ne, fam[i].0, fam[j].0), replay());
+                }
                 if got_eq != want_eq {
                     ctx.violation("equivalence-wrong", &format!("is_equivalent_to={} but digests equal={}", got_eq, want_eq), replay());
                 }
